@@ -273,8 +273,10 @@ func (ml *modLint) lvalue(sc *lscope, x *Expr, k useKind, procedural bool) {
 		case lkNet:
 			if procedural {
 				what := "a net"
-				if y.isPort {
+				if y.isPort && y.hasDir {
 					what = "an " + y.dir.String() + " port that is not declared reg"
+				} else if y.isPort {
+					what = "a port without direction declaration"
 				}
 				ml.add(x.Line, ClassAssignKind, x.Name, "procedural assignment to "+x.Name+", which is "+what)
 			}
